@@ -7,7 +7,9 @@ import (
 	"strings"
 	"time"
 
+	mqtt "github.com/at-wat/mqtt-go"
 	"github.com/at-wat/mqtt-go/internal/verif/env"
+	vctx "github.com/at-wat/mqtt-go/internal/verif/shim/context"
 	"github.com/at-wat/mqtt-go/internal/verif/vrt"
 )
 
@@ -86,6 +88,7 @@ func c17ConnClass(c int) string {
 }
 
 func runC17(c *Ctx) {
+	c17ProactiveSwap(c)
 	faults := env.FaultSet{LostClose: true, AckLost: true, OnlyTypes: map[byte]bool{env.PUBLISH: true, env.CONNECT: true}}
 	f, p := 2, 1
 	if c.Thorough() {
@@ -182,5 +185,72 @@ func runC17(c *Ctx) {
 	}
 	if sample != nil {
 		c.Sample(map[string]any{"workload": rcName(sample.cfg.Reqs), "faults": sample.broker.FaultLog, "handed_over": fmt.Sprint(sample.handledBy), "wire": sample.net.TraceStrings()})
+	}
+}
+
+// c17ProactiveSwap: an application that drives a bare RetryClient replaces the connection while the
+// old one is still alive (SetClient + Connect on a fresh BaseClient).  Messages still arriving on
+// the old connection and those arriving on the new one reach the registered handler.
+func c17ProactiveSwap(c *Ctx) {
+	c.Bound("proactive-swap", "bare RetryClient: handler registered before the first | after the first | after the second connection; second connection installed by SetClient+Connect while the first is still up; a QoS 0 and a QoS 1 message pushed on the first connection before the swap, on the first connection after the swap and on the second one; P<=1")
+	for _, when := range []string{"before-first", "after-first", "after-second"} {
+		when := when
+		var net *env.Net
+		sc := &vrt.Scenario{
+			Name:  "C17/proactive-swap/handler-registered-" + when,
+			Bound: vrt.Budget{P: 1},
+			Cfg:   vrt.Config{Horizon: int64(60 * time.Second)},
+			Body: func() {
+				net = env.NewNet()
+				var got []string
+				h := mqtt.HandlerFunc(func(m *mqtt.Message) {
+					got = append(got, string(m.Payload))
+					vrt.Event(nil, vrt.HashString(string(m.Payload)))
+				})
+				rc := &mqtt.RetryClient{}
+				bg := vctx.Background()
+				if when == "before-first" {
+					rc.Handle(h)
+				}
+				connect := func() *env.Script {
+					s := env.NewScript(net)
+					s.AutoConnAck = true
+					rc.SetClient(bg, &mqtt.BaseClient{Transport: s.Conn})
+					if _, err := rc.Connect(bg, "c17"); err != nil {
+						vrt.Failf("harness", "connect: %v", err)
+					}
+					return s
+				}
+				var want []string
+				push := func(s *env.Script, tag string) {
+					s.Send(env.EncPublish("t", []byte(tag+"-q0"), 0, 0, false, false))
+					s.Send(env.EncPublish("t", []byte(tag+"-q1"), 1, 7, false, false))
+					want = append(want, tag+"-q0", tag+"-q1")
+					vrt.Settle()
+				}
+				s1 := connect()
+				if when == "after-first" {
+					rc.Handle(h)
+				}
+				if when != "after-second" {
+					push(s1, "first-conn")
+				}
+				s2 := connect() // the first connection stays up
+				if when == "after-second" {
+					rc.Handle(h)
+				} else {
+					push(s1, "first-conn-after-swap")
+				}
+				push(s2, "second-conn")
+				if strings.Join(got, " ") != strings.Join(want, " ") {
+					vrt.Failf("c17/not-handed-over:proactive-swap:"+when, "handler registered %s: handed over %v, pushed %v\n wire:\n  %s", when, got, want, strings.Join(net.TraceStrings(), "\n  "))
+				}
+				s1.Close()
+				rc.Disconnect(bg)
+				vrt.Quiesce()
+			},
+			Observe: func() uint64 { return net.TraceHash() },
+		}
+		c.Explore(sc)
 	}
 }
